@@ -586,3 +586,15 @@ MUTANTS.update({
             header += "    Variable {name:15} {{ {nameQ:21}, {particle.mass:<10.8g} }};\\n".format(""")],
     },
 })
+
+MUTANTS.update({
+    "c02_refactor_os_path_resolve_stat": {
+        "prop": "C02", "expect": "pass", "opts": {"gen_runs": 64, "fault_runs": 48, "file_deliveries": 0},
+        "why": "behaviour-preserving: existence test through os.path.isfile on the resolved path and a stat() call before opening",
+        "edits": [(DEC, """                if not filename.is_file():
+                    raise FileNotFoundError(f"{str(filename)!r}!")
+""", """                if not os.path.isfile(os.fspath(filename.resolve())) or filename.stat().st_size < 0:
+                    raise FileNotFoundError(f"{str(filename)!r}!")
+""")],
+    },
+})
